@@ -141,65 +141,8 @@ func runC01Labels(c *Ctx) {
 			c.OK(edgeClo.Pos(), fn, construct, fmt.Sprintf("every disjunct present, in all %d models", models))
 		}
 	}
-	// (b) assignFaces: seeding field == flood-blocking field
-	if f := c.P.Func("geom.(*doublyConnectedEdgeList).assignFaces"); f != nil {
-		seed, flood := map[string]bool{}, map[string]bool{}
-		for _, g := range append([]*ssa.Function{f}, allAnon(f)...) {
-			eachInstr(g, func(in ssa.Instruction) {
-				st, ok := in.(*ssa.Store)
-				if !ok {
-					return
-				}
-				if b, isB := constBool(st.Val); !isB || !b {
-					return
-				}
-				ia, ok := st.Addr.(*ssa.IndexAddr)
-				if !ok {
-					return
-				}
-				fa, ok := ia.X.(*ssa.FieldAddr)
-				if !ok {
-					return
-				}
-				if sn, fl := fieldOfAddr(fa); sn != "faceRecord" || fl != "inSet" {
-					return
-				}
-				// which halfEdgeRecord flag guards this store, and with which truth?
-				for _, gd := range guardsAt(st) {
-					ld, ok := gd.Cond.(*ssa.UnOp)
-					if !ok || ld.Op != token.MUL {
-						continue
-					}
-					ia2, ok := ld.X.(*ssa.IndexAddr)
-					if !ok {
-						continue
-					}
-					fa2, ok := ia2.X.(*ssa.FieldAddr)
-					if !ok {
-						continue
-					}
-					if sn, fl := fieldOfAddr(fa2); sn == "halfEdgeRecord" {
-						if gd.Truth {
-							seed[fl] = true
-						} else {
-							flood[fl] = true
-						}
-					}
-				}
-			})
-		}
-		ks := func(m map[string]bool) string {
-			var s []string
-			for k := range m {
-				s = append(s, k)
-			}
-			return strings.Join(s, ",")
-		}
-		ok := len(seed) == 1 && len(flood) == 1 && ks(seed) == ks(flood)
-		c.Check(ok, f.Pos(), FuncName(f), "face seeding flag vs flood-blocking flag", "faces are seeded from halfEdgeRecord."+ks(seed)+" and the flood crosses an edge iff that same flag is clear", fmt.Sprintf("faces are seeded under flag {%s} but the flood is blocked by flag {%s}: edges that are not face boundaries of the operand (e.g. a lineal member lying inside an areal member) stop the flood and enclosed faces lose their label", ks(seed), ks(flood)))
-	} else {
-		c.Errorf("anchor assignFaces does not resolve")
-	}
+	// (b) face labels count the members of an operand that cover the face
+	checkFaceDepthLabels(c)
 	// extractPoints selection
 	if f := c.P.Func("geom.(*doublyConnectedEdgeList).extractPoints"); f != nil {
 		var sel *ssa.Store
@@ -408,4 +351,245 @@ func pointsString(m *Model, keys []string, d, n int) string {
 		p = append(p, fmt.Sprintf("(%v %v)", m.Num[keys[i*d]], m.Num[keys[i*d+1]]))
 	}
 	return strings.Join(p, ",")
+}
+
+// checkFaceDepthLabels: the members of one operand may overlap (collections),
+// so a face is in an operand iff the NUMBER of areal members covering it is
+// positive. Structural obligations:
+//
+//	(1) wherever a half edge is flagged as bordering an input face of an operand
+//	    (srcFace[op] = true), the per-edge member count of the same half edge and
+//	    operand is incremented by 1 in the same block, and nothing else writes it;
+//	(2) in assignFaces the count of the face across an edge e is obtained from the
+//	    count of the near face by adding count(e.twin) - count(e) (entering minus
+//	    leaving), both read from the same count field;
+//	(3) a face's inSet is assigned `count > 0`; no face label is set to the
+//	    constant true under "edge is not an input face border" (a Boolean flood
+//	    cannot enter the hole of one member that a sibling member covers);
+//	(4) counting starts at the face chosen by a strict minimum of the cycles'
+//	    signed areas (the unbounded face is the only one not wound
+//	    counter-clockwise around a positive area).
+func checkFaceDepthLabels(c *Ctx) {
+	af := c.P.Func("geom.(*doublyConnectedEdgeList).assignFaces")
+	if af == nil {
+		c.Errorf("anchor assignFaces does not resolve")
+		return
+	}
+	fn := FuncName(af)
+	isFieldPath := func(v ssa.Value, structName string, fields ...string) (base ssa.Value, ok bool) {
+		// v is the address X.f1.f2…[i]; returns X
+		if ia, isIA := v.(*ssa.IndexAddr); isIA {
+			v = ia.X
+		}
+		for k := len(fields) - 1; k >= 0; k-- {
+			fa, isFA := v.(*ssa.FieldAddr)
+			if !isFA {
+				return nil, false
+			}
+			_, fl := fieldOfAddr(fa)
+			if fl != fields[k] {
+				return nil, false
+			}
+			v = fa.X
+			if k > 0 {
+				ld, isLd := v.(*ssa.UnOp)
+				if !isLd || ld.Op != token.MUL {
+					return nil, false
+				}
+				v = ld.X
+			}
+		}
+		return v, true
+	}
+	// (1) flag and count are written together
+	var countField string
+	flagStores, countStores, lone := 0, 0, ""
+	for _, g := range c.P.Funcs {
+		if pkgOf(g) != "geom" || strings.Contains(c.P.File(g.Pos()), "dcel_debug.go") {
+			continue
+		}
+		eachInstr(g, func(in ssa.Instruction) {
+			st, ok := in.(*ssa.Store)
+			if !ok {
+				return
+			}
+			ia, ok := st.Addr.(*ssa.IndexAddr)
+			if !ok {
+				return
+			}
+			fa, ok := ia.X.(*ssa.FieldAddr)
+			if !ok {
+				return
+			}
+			sn, fl := fieldOfAddr(fa)
+			if sn != "halfEdgeRecord" {
+				return
+			}
+			if fl == "srcFace" {
+				flagStores++
+				// a sibling store in the same block to an int array field of the same half edge, same index
+				found := false
+				for _, in2 := range st.Block().Instrs {
+					st2, ok := in2.(*ssa.Store)
+					if !ok || st2 == st {
+						continue
+					}
+					ia2, ok := st2.Addr.(*ssa.IndexAddr)
+					if !ok || !sameValue(ia2.Index, ia.Index) {
+						continue
+					}
+					fa2, ok := ia2.X.(*ssa.FieldAddr)
+					if !ok || !sameValue(fa2.X, fa.X) {
+						continue
+					}
+					bo, ok := st2.Val.(*ssa.BinOp)
+					if !ok || bo.Op != token.ADD {
+						continue
+					}
+					if k, isC := constInt(bo.Y); isC && k == 1 {
+						_, countField = fieldOfAddr(fa2)
+						found = true
+					}
+				}
+				if !found {
+					lone = c.P.Pos(st.Pos())
+				}
+			}
+		})
+	}
+	if countField != "" {
+		for _, g := range c.P.Funcs {
+			if pkgOf(g) != "geom" {
+				continue
+			}
+			eachInstr(g, func(in ssa.Instruction) {
+				if st, ok := in.(*ssa.Store); ok {
+					if ia, ok := st.Addr.(*ssa.IndexAddr); ok {
+						if fa, ok := ia.X.(*ssa.FieldAddr); ok {
+							if sn, fl := fieldOfAddr(fa); sn == "halfEdgeRecord" && fl == countField {
+								countStores++
+							}
+						}
+					}
+				}
+			})
+		}
+	}
+	switch {
+	case flagStores == 0:
+		c.Errorf("no store to halfEdgeRecord.srcFace found")
+	case lone != "" || countField == "":
+		c.Bad(af.Pos(), fn, "members bordering an edge are counted", "the half edge is flagged as bordering an input face at "+lone+" without incrementing a per-edge member count: overlapping members of one operand cannot be told apart, so a face in the hole of one member that a sibling covers is labelled outside the operand (UnaryUnion keeps the hole)")
+	case countStores != flagStores:
+		c.Bad(af.Pos(), fn, "members bordering an edge are counted", fmt.Sprintf("the member count %s is written at %d sites but the face-border flag at %d", countField, countStores, flagStores))
+	default:
+		c.OK(af.Pos(), fn, "members bordering an edge are counted", fmt.Sprintf("%s[op]++ next to srcFace[op] = true at all %d site(s)", countField, flagStores))
+	}
+	if countField == "" {
+		return
+	}
+	// (2) entering minus leaving
+	okDelta, badDelta := 0, ""
+	floodTrue := ""
+	gtZero := 0
+	for _, g := range append([]*ssa.Function{af}, allAnon(af)...) {
+		eachInstr(g, func(in ssa.Instruction) {
+			switch x := in.(type) {
+			case *ssa.BinOp:
+				if x.Op != token.SUB {
+					return
+				}
+				lx, okx := x.X.(*ssa.UnOp)
+				ly, oky := x.Y.(*ssa.UnOp)
+				if !okx || !oky || lx.Op != token.MUL || ly.Op != token.MUL {
+					return
+				}
+				bx, farX := isFieldPath(lx.X, "halfEdgeRecord", "twin", countField)
+				by, nearY := isFieldPath(ly.X, "halfEdgeRecord", countField)
+				if farX && nearY {
+					// same edge on both sides
+					if ld, ok := bx.(*ssa.UnOp); ok {
+						bx = ld.X
+					}
+					_ = by
+					okDelta++
+					return
+				}
+				if _, nearX := isFieldPath(lx.X, "halfEdgeRecord", countField); nearX {
+					if _, farY := isFieldPath(ly.X, "halfEdgeRecord", "twin", countField); farY {
+						badDelta = "the count changes by count(e) - count(e.twin) at " + c.P.Pos(x.Pos()) + ": leaving and entering are swapped"
+					}
+				}
+			case *ssa.Store:
+				ia, ok := x.Addr.(*ssa.IndexAddr)
+				if !ok {
+					return
+				}
+				fa, ok := ia.X.(*ssa.FieldAddr)
+				if !ok {
+					return
+				}
+				if sn, fl := fieldOfAddr(fa); sn != "faceRecord" || fl != "inSet" {
+					return
+				}
+				if bo, ok := x.Val.(*ssa.BinOp); ok && bo.Op == token.GTR {
+					if k, isC := constInt(bo.Y); isC && k == 0 {
+						gtZero++
+						return
+					}
+				}
+				if b, isB := constBool(x.Val); isB && b {
+					for _, gd := range guardsAt(x) {
+						if ld, ok := gd.Cond.(*ssa.UnOp); ok && ld.Op == token.MUL && !gd.Truth {
+							if _, isFlag := isFieldPath(ld.X, "halfEdgeRecord", "srcFace"); isFlag {
+								floodTrue = c.P.Pos(x.Pos())
+							}
+						}
+					}
+				}
+			}
+		})
+	}
+	switch {
+	case badDelta != "":
+		c.Bad(af.Pos(), fn, "count across an edge", badDelta)
+	case okDelta == 0:
+		c.Bad(af.Pos(), fn, "count across an edge", "assignFaces never computes count(e.twin) - count(e): the number of covering members is not propagated across edges")
+	default:
+		c.OK(af.Pos(), fn, "count across an edge", "far face = near face + count(e.twin) - count(e)")
+	}
+	switch {
+	case floodTrue != "":
+		c.Bad(af.Pos(), fn, "face label from the count", "a face is labelled `true` under `edge is not an input face border` at "+floodTrue+" (Boolean flood): it cannot enter the hole of a member that a sibling member covers")
+	case gtZero == 0:
+		c.Bad(af.Pos(), fn, "face label from the count", "no face label is assigned as `count > 0`")
+	default:
+		c.OK(af.Pos(), fn, "face label from the count", "inSet[op] = count[op] > 0")
+	}
+	// (4) the anchor is the strict minimum of the signed areas
+	uf := c.P.Func("geom.(*doublyConnectedEdgeList).unboundedFace")
+	if uf == nil {
+		c.Bad(af.Pos(), fn, "counting starts at the unbounded face", "no unboundedFace routine: the face with count 0 is not identified")
+		return
+	}
+	minSel := false
+	eachInstr(uf, func(in ssa.Instruction) {
+		if bo, ok := in.(*ssa.BinOp); ok && bo.Op == token.LSS && isFloat(bo.X.Type()) {
+			for _, r := range *bo.Referrers() {
+				if _, isIf := r.(*ssa.If); isIf {
+					minSel = true
+				}
+			}
+			if _, isPhi := bo.Y.(*ssa.Phi); !isPhi {
+				// comparison against the running minimum expected on the right
+			}
+		}
+	})
+	crossUsed := false
+	for _, g := range append([]*ssa.Function{uf}, allAnon(uf)...) {
+		if len(callsTo(g, "geom.(XY).Cross")) > 0 {
+			crossUsed = true
+		}
+	}
+	c.Check(minSel && crossUsed, uf.Pos(), FuncName(uf), "counting starts at the unbounded face", "the face whose cycle has the smallest signed area (shoelace sum) is taken as covered by no member", "unboundedFace does not select the cycle of minimal signed area (shoelace sum with a `<` running minimum)")
 }
